@@ -51,6 +51,8 @@ func innerVal(a int32, s string) reflect.Value {
 
 var specs = []fieldSpec{
 	{"int32", pgen.F(sc(pgen.Int32), pgen.Plain), []tmpl{{"7", val(int32(7))}, {"-1", val(int32(-1))}, {"2147483647", val(int32(math.MaxInt32))}}, &bitor{proto.BitOr[int32]{}, 0x48}},
+	{"int32/or-uint64", pgen.F(sc(pgen.Int32), pgen.Plain), []tmpl{{"7", val(int32(7))}}, &bitor{proto.BitOr[uint64]{}, 1 << 31}},
+	{"int32/or-uint32", pgen.F(sc(pgen.Int32), pgen.Plain), []tmpl{{"-2", val(int32(-2))}}, &bitor{proto.BitOr[uint32]{}, 0x80000001}},
 	{"int64", pgen.F(sc(pgen.Int64), pgen.Plain), []tmpl{{"7", val(int64(7))}, {"-9223372036854775808", val(int64(math.MinInt64))}}, &bitor{proto.BitOr[int64]{}, 1 << 40}},
 	{"int", pgen.F(sc(pgen.Int), pgen.Plain), []tmpl{{"300", val(int(300))}}, &bitor{proto.BitOr[int]{}, 0x101}},
 	{"uint32", pgen.F(sc(pgen.Uint32), pgen.Plain), []tmpl{{"7", val(uint32(7))}, {"4294967295", val(uint32(math.MaxUint32))}}, &bitor{proto.BitOr[uint32]{}, 0x80000001}},
